@@ -279,11 +279,13 @@ static int host_port_parse(const char *proto, const char *addr_s,
 
     const char *port_start = port_sep+PORT_SEP_LEN;
 
-    char *end = NULL;
-    int lport = strtol(port_start, &end, 10);
-
-    if (end[0] != '\0')
+    /* decimal digits only: no empty field, sign, blank or trailing junk */
+    if (port_start[0] == '\0' ||
+	strspn(port_start, "0123456789") != strlen(port_start))
 	goto err_inval;
+
+    /* a long, so that a large value saturates instead of wrapping */
+    long lport = strtol(port_start, NULL, 10);
 
     if (lport < 0 || lport > 65535)
 	goto err_inval;
